@@ -118,5 +118,5 @@ pub static MEM: EngineDef = EngineDef {
     shrink: shrink_erased::<Mem>,
     summarize: summarize_erased::<Mem>,
     describe: mem_describe,
-    runs: |_| (300_000, 5_000_000),
+    runs: |_| (300_000, 7_000_000),
 };
